@@ -46,6 +46,8 @@ def make_case(rng, tier):
     names = sorted(S.variables(t))
     if pts is None:
         pts = [G.rand_point(rng, names, extra=0.1) for _ in range(3)]
+        if rng.random() < 0.3:
+            pts += G.collision_twins(rng, names)
     var = rng.choice(names) if names and rng.random() < 0.85 else rng.choice(["q", "x", "y"])
     return {"kind": "routes", "family": fam, "spec": S.to_json(t), "points": [S.point_to_json(p) for p in pts],
             "mode": G.share(rng, t), "var": var}
